@@ -164,6 +164,26 @@ C06Clauses(w, strategy, err, nwarn, named, o) ==
     (* no failure at all: both strategies succeed without warnings about stores *)
     (IF Failing(w) = {} /\ err # "" THEN {"no-failure-no-error"} ELSE {})
 
+
+(* ---- C06 for the label APIs (ProxyStore.LabelNames / LabelValues): the same sentences, the     *)
+(* result being a set of names (values of label 1) instead of series.  A store with a failure     *)
+(* point answers the unary call with an error; a healthy store answers with the label names of    *)
+(* its series (replica labels it strips itself left out) / the values of label 1.                 *)
+StoreNames(w, st) ==
+    { p[1] : p \in UNION { Rng(fr.ls) : fr \in SeriesIn(Rng(st.frames)) } } \ (IF st.strips THEN Without(w) ELSE {})
+StoreValues(st) == { p[2] : p \in { q \in UNION { Rng(fr.ls) : fr \in SeriesIn(Rng(st.frames)) } : q[1] = 1 } }
+HealthyLabelResults(w, api) ==
+    UNION { (IF api = "names" THEN StoreNames(w, w.stores[i]) ELSE StoreValues(w.stores[i])) : i \in Healthy(w) }
+C06LabelClauses(w, strategy, api, err, nwarn, named, got) ==
+    (IF strategy = "ABORT" /\ Failing(w) # {} /\ err = "" THEN {"labels-abort-fails-when-a-store-fails"} ELSE {})
+    \cup (IF strategy = "WARN" /\ err # "" THEN {"labels-warn-succeeds"} ELSE {})
+    \cup (IF strategy = "WARN" /\ err = "" /\ Failing(w) # {}
+              /\ ~((\A i \in Failing(w) : named[i]) \/ nwarn >= Cardinality(Failing(w)))
+             THEN {"labels-warn-reports-each-failed-store"} ELSE {})
+    \cup (IF strategy = "WARN" /\ err = "" /\ ~(HealthyLabelResults(w, api) \subseteq got)
+             THEN {"labels-healthy-results-returned"} ELSE {})
+    \cup (IF Failing(w) = {} /\ err # "" THEN {"labels-no-failure-no-error"} ELSE {})
+
 (* ======================= algorithm level ======================= *)
 (* What the code does, as functions (the step-wise state machine is ProxyFanoutMC).             *)
 
